@@ -3,16 +3,32 @@
 package c06
 
 import (
+	"errors"
 	"fmt"
+	"io"
+	"log"
+	"net"
+	"sort"
 	"strings"
+	"sync"
 	"testing"
+	"time"
 
 	"cell2verif/hx"
 
+	"github.com/dfklegend/cell2/node/builtin/msgs"
+	"github.com/dfklegend/cell2/node/client/impls"
+	"github.com/dfklegend/cell2/node/client/impls/pomelo"
+	cs "github.com/dfklegend/cell2/node/client/session"
 	"github.com/dfklegend/cell2/pomelonet/common/conn/codec"
 	"github.com/dfklegend/cell2/pomelonet/common/conn/message"
 	"github.com/dfklegend/cell2/pomelonet/common/conn/packet"
+	"github.com/dfklegend/cell2/pomelonet/constants"
+	"github.com/dfklegend/cell2/pomelonet/server/session"
 	"github.com/dfklegend/cell2/utils/compression"
+	"github.com/dfklegend/cell2/utils/logger"
+	"github.com/dfklegend/cell2/utils/sche"
+	"github.com/sirupsen/logrus"
 )
 
 // exact returns a copy whose capacity equals its length, so an out-of-bounds
@@ -46,10 +62,299 @@ func doDecode(data []byte) string {
 	})
 }
 
+func showDec(ps []*packet.Packet, err error) string {
+	if err != nil {
+		return "err"
+	}
+	return showPackets(ps)
+}
+
+// ---- one long-lived packet decoder, as a server component has it ----
+//
+// `pdecs` decodes on sharedDec and KEEPS what was returned (the packet structs
+// with their Data slices, not copies); `pchk k=i` renders the i-th newest kept
+// result again, now.  Inputs are never touched after the call.
+
+const winCap = 8
+
+type kept struct {
+	ps  []*packet.Packet
+	err error
+}
+
+var (
+	sharedDec = codec.NewPomeloPacketDecoder()
+	window    []kept // newest first
+)
+
+func pushKept(k kept) {
+	window = append([]kept{k}, window...)
+	if len(window) > winCap {
+		window = window[:winCap]
+	}
+}
+
+// ---- session stream: a real ClientSession over a scripted in-memory PlayerConn ----
+//
+// cfg.Impl is the real pomelo.SessionsImpl posting to a real sche.Sche in front of
+// the real impls.ClientSessions; the harness goroutine plays the owner (drains
+// the scheduler) and records what the owner's ISessionsHandler is given.
+// `sess data=<hex>` opens a session (handshake, handshake-ack) and stages ONE
+// Data packet carrying <hex> as message bytes; `sgo` lets the session read it.
+// A panic on the session's reader goroutine has no recover above it: it kills
+// this process, exactly as it would kill the server.
+
+var errConnClosed = errors.New("use of closed connection")
+
+type frameItem struct {
+	data []byte
+	err  error
+}
+
+type sconn struct {
+	in       chan frameItem
+	asked    chan struct{} // one token per GetNextMessage call
+	closedCh chan struct{}
+	once     sync.Once
+}
+
+func newSconn() *sconn {
+	return &sconn{in: make(chan frameItem, 1), asked: make(chan struct{}, 16), closedCh: make(chan struct{})}
+}
+
+func (c *sconn) GetNextMessage() ([]byte, error) {
+	select {
+	case <-c.closedCh:
+		return nil, errConnClosed
+	default:
+	}
+	c.asked <- struct{}{}
+	select {
+	case it := <-c.in:
+		return it.data, it.err
+	case <-c.closedCh:
+		return nil, errConnClosed
+	}
+}
+
+func (c *sconn) Write(b []byte) (int, error) {
+	select {
+	case <-c.closedCh:
+		return 0, errConnClosed
+	default:
+	}
+	return len(b), nil
+}
+
+func (c *sconn) Close() error {
+	c.once.Do(func() { close(c.closedCh) })
+	return nil
+}
+
+func (c *sconn) Read(b []byte) (int, error)         { return 0, io.EOF }
+func (c *sconn) LocalAddr() net.Addr                { return nil }
+func (c *sconn) RemoteAddr() net.Addr               { return nil }
+func (c *sconn) SetDeadline(t time.Time) error      { return nil }
+func (c *sconn) SetReadDeadline(t time.Time) error  { return nil }
+func (c *sconn) SetWriteDeadline(t time.Time) error { return nil }
+
+const watchdog = 20 * time.Second
+
+// wait: the reader finished what it was given: it asks for the next frame
+// ("asked") or the session closed the connection ("closed")
+func (c *sconn) wait() string {
+	t := time.NewTimer(watchdog)
+	defer t.Stop()
+	select {
+	case <-c.asked:
+		return "asked"
+	case <-c.closedCh:
+		return "closed"
+	case <-t.C:
+		return "timeout"
+	}
+}
+
+// ownerRec is the owner's ISessionsHandler (runs on the harness goroutine, inside drain)
+type ownerRec struct {
+	ev      []string
+	added   int
+	removed int
+}
+
+func (r *ownerRec) Process(fs *cs.FrontSession, m *msgs.ClientMsg) {
+	r.ev = append(r.ev, fmt.Sprintf("delivered id=%d route=%s data=%s", m.ClientReqId, hx.Hex([]byte(m.Route)), hx.Hex(m.Data)))
+}
+func (r *ownerRec) OnSessionAdd(fs *cs.FrontSession)    { r.added++ }
+func (r *ownerRec) OnSessionRemove(fs *cs.FrontSession) { r.removed++ }
+
+type staged struct {
+	c    *sconn
+	s    *session.ClientSession
+	data []byte
+}
+
+type sessEnv struct {
+	sch *sche.Sche
+	rec *ownerRec
+	cfg *session.SessionConfig
+	enc *codec.PomeloPacketEncoder
+	cur *staged
+}
+
+var senv *sessEnv
+
+func getSessEnv() *sessEnv {
+	if senv == nil {
+		logger.SetLogLevel(logrus.PanicLevel)
+		log.SetOutput(io.Discard)
+		e := &sessEnv{sch: sche.NewSche(), rec: &ownerRec{}, enc: codec.NewPomeloPacketEncoder()}
+		css := impls.NewClientSessions("gate-1")
+		css.SetHandler(e.rec)
+		e.cfg = session.NewSessionConfig(nil) // one decoder/encoder for all sessions, as TCPComponent has it
+		e.cfg.Impl = pomelo.NewSessionsImpl(e.sch, css)
+		senv = e
+	}
+	return senv
+}
+
+// drain runs what is queued on the owner's scheduler, without blocking
+func (e *sessEnv) drain() {
+	for {
+		select {
+		case t := <-e.sch.GetChanTask():
+			if t != nil {
+				e.sch.DoTask(t)
+			}
+		default:
+			return
+		}
+	}
+}
+
+// awaitRemove plays the owner until the session's removal was processed
+func (e *sessEnv) awaitRemove(want int) bool {
+	t := time.NewTimer(watchdog)
+	defer t.Stop()
+	for e.rec.removed < want {
+		select {
+		case task := <-e.sch.GetChanTask():
+			if task != nil {
+				e.sch.DoTask(task)
+			}
+		case <-t.C:
+			return false
+		}
+	}
+	return true
+}
+
+func (e *sessEnv) frame(typ packet.Type, body []byte) []byte {
+	b, err := e.enc.Encode(typ, body)
+	if err != nil {
+		return nil
+	}
+	return exact(b)
+}
+
+// finish ends a session the server has not closed: the client goes away
+func (e *sessEnv) finish(st *staged) bool {
+	want := e.rec.removed + 1
+	select {
+	case <-st.c.closedCh:
+	default:
+		st.c.in <- frameItem{err: constants.ErrConnectionClosed}
+		if st.c.wait() == "timeout" {
+			return false
+		}
+	}
+	select {
+	case <-st.c.closedCh:
+	case <-time.After(watchdog):
+		return false
+	}
+	return e.awaitRemove(want)
+}
+
+const hsJSON = `{"sys":{"platform":"verif","libVersion":"0","clientBuildNumber":"0","clientVersion":"0"},"user":{}}`
+
+func (e *sessEnv) stage(data []byte) string {
+	if e.cur != nil { // a staged session that was never run: the client goes away
+		e.finish(e.cur)
+		e.cur = nil
+	}
+	c := newSconn()
+	s := session.NewClientSession(c, e.cfg)
+	s.Handle()
+	st := &staged{c: c, s: s, data: data}
+	for _, f := range [][]byte{nil, e.frame(packet.Handshake, []byte(hsJSON)), e.frame(packet.HandshakeAck, nil)} {
+		if f != nil {
+			c.in <- frameItem{data: f}
+		}
+		if r := c.wait(); r != "asked" {
+			e.drain()
+			e.finish(st)
+			return "open-" + r
+		}
+	}
+	e.drain()
+	if got := s.GetStatus(); got != session.StatusWorking {
+		e.finish(st)
+		return fmt.Sprintf("status=%d", got)
+	}
+	e.cur = st
+	return "working"
+}
+
+func (e *sessEnv) run() string {
+	st := e.cur
+	if st == nil {
+		return "none"
+	}
+	e.cur = nil
+	e.rec.ev = nil
+	want := e.rec.removed + 1
+	f := e.frame(packet.Data, st.data)
+	if f == nil {
+		e.finish(st)
+		return "encerr"
+	}
+	st.c.in <- frameItem{data: f}
+	r := st.c.wait()
+	e.drain()
+	var out []string
+	switch r {
+	case "timeout":
+		return "timeout"
+	case "closed":
+		if !e.awaitRemove(want) {
+			return "timeout"
+		}
+		out = append(append(out, e.rec.ev...), "closed")
+	case "asked":
+		out = append(out, e.rec.ev...)
+		if len(out) == 0 {
+			out = append(out, "ignored")
+		}
+		if !e.finish(st) {
+			return "timeout"
+		}
+	}
+	return strings.Join(out, " ; ")
+}
+
 // exec interprets one op line against the real code.
 func exec(op string) string {
 	ws := hx.Words(op)
 	if len(ws) == 0 {
+		return "bad-op"
+	}
+	if strings.HasPrefix(ws[0], "<harness-exit") {
+		// replay of a run in which the process died: the op it died in is the step after the last
+		// recorded op; for a staged session that is `sgo`
+		if senv != nil && senv.cur != nil {
+			return hx.Guard(func() string { return senv.run() })
+		}
 		return "bad-op"
 	}
 	switch ws[0] {
@@ -61,6 +366,75 @@ func exec(op string) string {
 			}
 			return "ok"
 		})
+	case "dictm":
+		// one SetDictionary call with several entries (issued without duplicates: the outcome
+		// does not depend on the iteration order of the map)
+		return hx.Guard(func() string {
+			d := map[string]uint16{}
+			for _, w := range ws[1:] {
+				if !strings.HasPrefix(w, "e=") {
+					continue
+				}
+				parts := strings.SplitN(w[2:], ":", 2)
+				if len(parts) != 2 {
+					continue
+				}
+				var c int
+				fmt.Sscanf(parts[1], "%d", &c)
+				d[string(hx.KVHex([]string{"x=" + parts[0]}, "x"))] = uint16(c)
+			}
+			if err := message.SetDictionary(d); err != nil {
+				return "dup"
+			}
+			return "ok"
+		})
+	case "dictget":
+		return hx.Guard(func() string {
+			d := message.GetDictionary()
+			type ent struct {
+				r string
+				c uint16
+			}
+			var es []ent
+			for r, c := range d {
+				es = append(es, ent{r, c})
+			}
+			sort.Slice(es, func(i, j int) bool { return es[i].c < es[j].c })
+			var sb strings.Builder
+			sb.WriteString("ok")
+			for _, e := range es {
+				fmt.Fprintf(&sb, " %s:%d", hx.Hex([]byte(e.r)), e.c)
+			}
+			return sb.String()
+		})
+	case "pdec2":
+		// two calls on ONE decoder; the first call's result is rendered when it is returned and
+		// again after the second call (the kept packets, not copies)
+		return hx.Guard(func() string {
+			d := codec.NewPomeloPacketDecoder()
+			pa, ea := d.Decode(exact(hx.KVHex(ws, "a")))
+			r1 := showDec(pa, ea)
+			pb, eb := d.Decode(exact(hx.KVHex(ws, "b")))
+			return r1 + " | " + showDec(pb, eb) + " | " + showDec(pa, ea)
+		})
+	case "pdecs":
+		return hx.Guard(func() string {
+			ps, err := sharedDec.Decode(exact(hx.KVHex(ws, "data")))
+			pushKept(kept{ps, err})
+			return showDec(ps, err)
+		})
+	case "pchk":
+		return hx.Guard(func() string {
+			k := hx.KVInt(ws, "k")
+			if k >= len(window) {
+				return "none"
+			}
+			return showDec(window[k].ps, window[k].err)
+		})
+	case "sess":
+		return hx.Guard(func() string { return getSessEnv().stage(hx.KVHex(ws, "data")) })
+	case "sgo":
+		return hx.Guard(func() string { return getSessEnv().run() })
 	case "enc", "rt":
 		return hx.Guard(func() string {
 			m := &message.Message{Type: message.Type(hx.KVInt(ws, "typ")), ID: uint(hx.KVU64(ws, "id")),
@@ -165,7 +539,144 @@ var ids = []uint64{0, 1, 127, 128, 129, 16383, 16384, 300, 1<<21 - 1, 1 << 21, 1
 
 type gen struct {
 	t      *hx.T
-	routes [][]byte // dictionary routes
+	routes [][]byte        // dictionary routes (as stored: trimmed)
+	hasR   map[string]bool // trimmed routes in the dictionary
+	hasC   map[int]bool    // codes in the dictionary
+	codes  []int           // the same, in insertion order
+}
+
+// blanks the generator puts around dictionary keys.  strings.TrimSpace also trims \v, \f and
+// some non-ASCII runes; keys are ASCII without \v/\f, where TrimSpace = trimming these four.
+const blanks = " \t\n\r"
+
+func trimKey(k string) string { return strings.Trim(k, blanks) }
+
+// note keeps the generator's picture of the dictionary in step with the ops that ran
+// (corpus ops included), so that multi-entry calls can be made duplicate-free
+func (g *gen) note(op, obs string) {
+	ws := hx.Words(op)
+	if len(ws) == 0 || obs != "ok" {
+		return
+	}
+	add := func(key []byte, code int) {
+		r := trimKey(string(key))
+		if !g.hasR[r] {
+			g.routes = append(g.routes, []byte(r))
+		}
+		if !g.hasC[code] {
+			g.codes = append(g.codes, code)
+		}
+		g.hasR[r], g.hasC[code] = true, true
+	}
+	switch ws[0] {
+	case "dict":
+		add(hx.KVHex(ws, "route"), hx.KVInt(ws, "code"))
+	case "dictm":
+		for _, w := range ws[1:] {
+			if parts := strings.SplitN(strings.TrimPrefix(w, "e="), ":", 2); strings.HasPrefix(w, "e=") && len(parts) == 2 {
+				var c int
+				fmt.Sscanf(parts[1], "%d", &c)
+				add(hx.KVHex([]string{"x=" + parts[0]}, "x"), c)
+			}
+		}
+	}
+}
+
+func (g *gen) pad() string {
+	t := g.t
+	n := t.Pick(0, 0, 1, 1, 2, 3)
+	b := make([]byte, n)
+	for i := range b {
+		b[i] = blanks[t.R.Intn(len(blanks))]
+	}
+	return string(b)
+}
+
+// freshKey: a dictionary key (ASCII; possibly blank-padded, possibly all blank) whose trimmed
+// form is not in the dictionary and not in `taken`, and a free code
+func (g *gen) freshKey(taken map[string]bool, takenC map[int]bool) (string, int) {
+	t := g.t
+	const alpha = "abcdefghijklmnopqrstuvwxyzABCXYZ0123456789._-"
+	for {
+		n := t.Pick(0, 1, 2, 3, 5, 8, 13, 21)
+		core := make([]byte, n)
+		for i := range core {
+			core[i] = alpha[t.R.Intn(len(alpha))]
+			if i > 0 && i < n-1 && t.R.Intn(8) == 0 {
+				core[i] = blanks[t.R.Intn(len(blanks))] // inner blanks stay
+			}
+		}
+		code := t.R.Intn(65536)
+		if t.R.Intn(4) == 0 {
+			code = t.Pick(0, 2, 254, 257, 511, 512, 32767, 32768, 65534)
+		}
+		r := string(core)
+		if g.hasR[r] || taken[r] || g.hasC[code] || takenC[code] {
+			continue
+		}
+		key := r
+		if t.R.Intn(3) != 0 {
+			key = g.pad() + r + g.pad()
+		}
+		if key != r {
+			t.Count("dict.key.padded")
+		}
+		if r == "" {
+			t.Count("dict.key.allblank")
+		}
+		return key, code
+	}
+}
+
+func (g *gen) dictOp() string {
+	t := g.t
+	switch t.R.Intn(5) {
+	case 0: // duplicate of an existing route (written with other padding) or of an existing code
+		if len(g.routes) > 0 {
+			t.Count("dict.dup")
+			if t.R.Intn(2) == 0 {
+				_, c := g.freshKey(nil, nil)
+				return fmt.Sprintf("dict route=%s code=%d", hx.Hex([]byte(g.pad()+string(g.routes[t.R.Intn(len(g.routes))])+g.pad())), c)
+			}
+			k, _ := g.freshKey(nil, nil)
+			return fmt.Sprintf("dict route=%s code=%d", hx.Hex([]byte(k)), g.codes[t.R.Intn(len(g.codes))])
+		}
+	case 1, 2: // several entries in one call, no duplicates
+		n := 2 + t.R.Intn(4)
+		taken, takenC := map[string]bool{}, map[int]bool{}
+		var sb strings.Builder
+		sb.WriteString("dictm")
+		for i := 0; i < n; i++ {
+			k, c := g.freshKey(taken, takenC)
+			taken[trimKey(k)], takenC[c] = true, true
+			fmt.Fprintf(&sb, " e=%s:%d", hx.Hex([]byte(k)), c)
+		}
+		t.Count("dict.multi")
+		return sb.String()
+	}
+	k, c := g.freshKey(nil, nil)
+	t.Count("dict.single")
+	return fmt.Sprintf("dict route=%s code=%d", hx.Hex([]byte(k)), c)
+}
+
+// sessOp stages one Data packet for a fresh session
+func sessOp(data []byte) string {
+	return "sess" + strings.TrimPrefix(decOp(data), "dec")
+}
+
+// framesFor: a packet stream for the long-lived decoder (mostly well-formed, similar sizes so
+// that a reused buffer would be overwritten in place)
+func (g *gen) framesFor() []byte {
+	t := g.t
+	if t.R.Intn(6) == 0 {
+		return g.badStream()
+	}
+	var all []byte
+	for i := 0; i < 1+t.R.Intn(3); i++ {
+		b, _ := codec.NewPomeloPacketEncoder().Encode(packet.Type(1+t.R.Intn(5)), t.Bytes(t.Pick(0, 1, 3, 8, 20, 33, 70)))
+		all = append(all, b...)
+	}
+	return all
 }
 
 func (g *gen) route() []byte {
@@ -278,6 +789,20 @@ func (g *gen) packetsOp() string {
 	return sb.String()
 }
 
+func (g *gen) varintStress() []byte {
+	h := g.t
+	k := 1 + h.R.Intn(14)
+	b := []byte{byte(h.Pick(0, 4, 1, 5, 0x20, 0x24))}
+	for j := 0; j < k; j++ {
+		b = append(b, byte(0x80|h.R.Intn(128)))
+	}
+	if h.R.Intn(2) == 0 {
+		b = append(b, byte(h.R.Intn(128)))
+		b = append(b, h.Bytes(h.R.Intn(6))...)
+	}
+	return b
+}
+
 func (g *gen) badStream() []byte {
 	t := g.t
 	switch t.R.Intn(5) {
@@ -310,8 +835,16 @@ func (g *gen) badStream() []byte {
 func TestRun(t *testing.T) {
 	h := hx.Open()
 	defer h.Close()
+	g := &gen{t: h, hasR: map[string]bool{}, hasC: map[int]bool{}}
 	run := func(op string) {
-		h.Emit(op, exec(op))
+		obs := exec(op)
+		h.Emit(op, obs)
+		g.note(op, obs)
+		if strings.HasPrefix(op, "sess ") {
+			// the next op lets a session's reader goroutine loose on client bytes; if that kills the
+			// process the staged input must already be on disk
+			h.Flush()
+		}
 	}
 	if ops := hx.ReplayOps(); ops != nil {
 		for _, op := range ops {
@@ -319,14 +852,23 @@ func TestRun(t *testing.T) {
 		}
 		return
 	}
-	g := &gen{t: h}
 	// dictionary: a few entries, a duplicate route and a duplicate code
 	for i, r := range []string{"chat.room.join", "a.b.c", "x", "connector.entry.enter"} {
-		g.routes = append(g.routes, []byte(r))
 		run(fmt.Sprintf("dict route=%s code=%d", hx.Hex([]byte(r)), []int{1, 255, 256, 65535}[i]))
 	}
 	run(fmt.Sprintf("dict route=%s code=9", hx.Hex([]byte("a.b.c"))))
 	run(fmt.Sprintf("dict route=%s code=255", hx.Hex([]byte("fresh.route"))))
+	// keys with surrounding blanks are stored trimmed (in both maps); an all-blank key is the empty route
+	run(fmt.Sprintf("dict route=%s code=300", hx.Hex([]byte(" room.enter "))))
+	run(fmt.Sprintf("dict route=%s code=301", hx.Hex([]byte("\t\r\n room.enter"))))    // dup of the trimmed route
+	run(fmt.Sprintf("dict route=%s code=302", hx.Hex([]byte(" \t\n\r"))))              // stored as ""
+	run(fmt.Sprintf("dictm e=%s:303 e=%s:304 e=%s:305", hx.Hex([]byte("room.leave\n")), hx.Hex([]byte("\tin ner ")), hx.Hex([]byte("plain"))))
+	run("dictget")
+	for _, r := range []string{"room.enter", "", "room.leave", "in ner", "plain", " room.enter "} {
+		for typ := 0; typ < 4; typ++ {
+			run(fmt.Sprintf("rt typ=%d id=7 route=%s data=0102 err=0 comp=0 defl=", typ, hx.Hex([]byte(r))))
+		}
+	}
 	// corpus first
 	for _, op := range hx.CorpusOps(hx.Env("VERIF_CORPUS", "corpus/C06")) {
 		h.Count("corpus")
@@ -346,9 +888,29 @@ func TestRun(t *testing.T) {
 	for _, n := range []int{1<<24 - 1, 1 << 24, 1<<24 + 1} {
 		run(fmt.Sprintf("plimit typ=4 n=%d", n))
 	}
+	// session level: every message of length <= 1, and every flag byte in front of a few tails
+	// (unknown code, known code, short/long route lengths, unterminated id), each as the one Data
+	// packet of a fresh working session
+	sess := func(data []byte) {
+		run(sessOp(data))
+		run("sgo")
+	}
+	sess(nil)
+	tails := [][]byte{{0xff, 0xfe}, {0x00, 0x01, 0x41}, {0x00}, {0x03, 'a', 'b', 'c', 'x'}, {0x05, 'a'}, {0x80, 0x80}, {0x81, 0x01, 0x01, 0x2c, 0x7a}}
+	for a := 0; a < 256; a++ {
+		sess([]byte{byte(a)})
+		for _, tl := range tails {
+			sess(append([]byte{byte(a)}, tl...))
+		}
+	}
+	h.Stats["exhaustive.sess.len<=1"] = 257
+	h.Stats["sess.flag-x-tails"] = 256 * len(tails)
+	// one decoder for two calls: the first result must still read the same after the second call
+	run("pdec2 a=0400000401020304 b=04000004fffefdfc")
+	run("pdec2 a=0400000401020304 b=")
 	n := hx.EnvInt("VERIF_N", 4000)
 	for i := 0; i < n; i++ {
-		switch h.R.Intn(9) {
+		switch h.R.Intn(13) {
 		case 0, 1, 2:
 			op, _ := g.msgOp("rt")
 			h.Count("op.rt")
@@ -380,19 +942,57 @@ func TestRun(t *testing.T) {
 			h.Count("op.dec.random")
 			run(decOp(b))
 		case 8: // id field stress: long runs of continuation bytes
-			k := 1 + h.R.Intn(14)
-			b := []byte{byte(h.Pick(0, 4, 1, 5, 0x20, 0x24))}
-			for j := 0; j < k; j++ {
-				b = append(b, byte(0x80|h.R.Intn(128)))
-			}
-			if h.R.Intn(2) == 0 {
-				b = append(b, byte(h.R.Intn(128)))
-				b = append(b, h.Bytes(h.R.Intn(6))...)
-			}
+			run(decOp(g.varintStress()))
 			h.Count("op.dec.varint")
-			run(decOp(b))
+		case 9: // the same input families as the one Data packet of a session
+			var b []byte
+			switch h.R.Intn(5) {
+			case 0:
+				b = g.validEncoding()
+				h.Count("op.sess.valid")
+			case 1:
+				b = g.validEncoding()
+				b = b[:h.R.Intn(len(b)+1)]
+				h.Count("op.sess.truncated")
+			case 2:
+				b = g.validEncoding()
+				b[h.R.Intn(min(len(b), 4))] ^= byte(1 << uint(h.R.Intn(8)))
+				h.Count("op.sess.mutated")
+			case 3:
+				b = h.Bytes(2 + h.R.Intn(12))
+				b[0] = byte(h.R.Intn(64))
+				h.Count("op.sess.random")
+			case 4:
+				b = g.varintStress()
+				h.Count("op.sess.varint")
+			}
+			sess(b)
+		case 10: // two calls on one decoder
+			h.Count("op.pdec2")
+			run("pdec2 a=" + hx.Hex(g.framesFor()) + " b=" + hx.Hex(g.framesFor()))
+		case 11: // the long-lived decoder: decode and keep, or read an earlier result again
+			if h.R.Intn(2) == 0 {
+				h.Count("op.pdecs")
+				run("pdecs data=" + hx.Hex(g.framesFor()))
+			} else {
+				h.Count("op.pchk")
+				run(fmt.Sprintf("pchk k=%d", h.R.Intn(winCap+1)))
+			}
+		case 12:
+			if h.R.Intn(5) == 0 {
+				h.Count("op.dict")
+				run(g.dictOp())
+				if h.R.Intn(4) == 0 {
+					run("dictget")
+				}
+			} else { // a routable message to a dictionary route (as stored, i.e. trimmed)
+				op, _ := g.msgOp("rt")
+				h.Count("op.rt")
+				run(op)
+			}
 		}
 	}
+	run("dictget")
 }
 
 
